@@ -239,6 +239,25 @@ def run(shard, seed):
                     break
             if res.violations:
                 break
+        # integer-typed vectors (count data) holding exact zeros: the same numbers must give the same value
+        # as their float64 copies - in particular a finite one
+        if not res.violations:
+            zs = [(0, 3, 7, 0, 5), (2, 0, 7, 1, 5), (0, 0), (0, 4), (0,), (3,)]
+            for xi in zs:
+                for yi in zs:
+                    if len(xi) != len(yi):
+                        continue
+                    for dt in (np.int64, np.int32):
+                        v = int_vs_float(fn, name, cl, xi, yi, str(np.dtype(dt)))
+                        res.transitions += 2
+                        res.nontrivial += 1
+                        if v:
+                            res.violations.append(v)
+                            break
+                    if res.violations:
+                        break
+                if res.violations:
+                    break
         res.outcome((name, "mixed"))
         res.sample({"metric": name, "mode": "mixed", "x_int": list(ints[0]), "y_float": list(flts[0])}, 1)
         res.evaluations = res.transitions
@@ -287,10 +306,33 @@ def run(shard, seed):
     return res
 
 
+def int_vs_float(fn, name, cl, xi, yi, dt):
+    a, b = np.array(xi, dtype=np.dtype(dt)), np.array(yi, dtype=np.dtype(dt))
+    try:
+        gi = float(fn(a.copy(), b.copy()))
+    except Exception:
+        gi = float("nan")
+    try:
+        gf = float(fn(a.astype(float), b.astype(float)))
+    except Exception:
+        gf = float("inf")
+    same = (gi == gf) or (gi != gi and gf != gf) or abs(gi - gf) <= 1e-9 * max(1.0, abs(gf))
+    if same:
+        return None
+    v = make_violation(name, cl, [list(xi), list(yi)], "finite", 0, 1, None,
+                       "on %s arrays the value is %r, on float64 arrays holding the same numbers it is %r"
+                       % (dt, gi, gf))
+    v["program"]["int_vs_float"] = dt
+    v["fingerprint"] = "metric %s: integer-typed vectors treated differently" % name
+    return v
+
+
 def replay(case):
     import opfython.math.distance as D
     p = case["program"]
     name, cl, axiom = p["metric"], p["class"], p["axiom"]
+    if p.get("int_vs_float"):
+        return int_vs_float(D.DISTANCES[name], name, cl, p["x"], p["y"], p["int_vs_float"])
     if p.get("negzero"):
         a, b = np.array(p["x"], dtype=float), np.array(p["y"], dtype=float)
         try:
